@@ -115,10 +115,12 @@ class Problem:
         'array' / 'list' (only for all-constant problems: ndarray / list of Python floats)."""
         const = [c["shape"] == "const" or c["beta"] == 0.0 for c in self.coefs]
         if mode == "array":
-            assert all(const)
+            if not all(const):
+                raise ValueError("coefficient mode needs an all-constant problem")
             return np.array([self.lam * c["alpha"] for c in self.coefs], dtype=float)
         if mode == "list":
-            assert all(const)
+            if not all(const):
+                raise ValueError("coefficient mode needs an all-constant problem")
             return [float(self.lam * c["alpha"]) for c in self.coefs]
         out = []
         for k, c in enumerate(self.coefs):
@@ -317,6 +319,11 @@ class _FakeMap:
         self.transform, self.domain = fn, domain
 
 
+def _require(cond, msg="oracle self-test failed"):
+    if not cond:
+        raise AssertionError(msg)
+
+
 def self_test(nprob=3, seed=12345):
     """Raises AssertionError when the closed forms disagree with SymPy or map_derivs is inaccurate."""
     import sympy as sp
@@ -332,7 +339,7 @@ def self_test(nprob=3, seed=12345):
             pr.sol.update({"cl": -0.7, "dl": 0.21, "xb": pr.sol["xc"] + 0.9})
         x0 = pr.sol["xc"] - 0.7
         ints = integerise(pr, [(x0, k) for k in range(order)] + ([(x0 + 1.5, 0)] if i % 2 else []), rng)
-        assert all(isinstance(n, int) for n in ints) and abs(float(pr.y(np.array([x0]), 0)[0]) - ints[0]) < 1e-12
+        _require(all(isinstance(n, int) for n in ints) and abs(float(pr.y(np.array([x0]), 0)[0]) - ints[0]) < 1e-12)
         s = pr.sol
         R = lambda v: sp.Rational(repr(float(v)))  # exact decimal of the double's repr  # noqa: E731
         u = X - R(s["xc"])
@@ -362,28 +369,28 @@ def self_test(nprob=3, seed=12345):
         xx = np.array(pts)
         fx = pr.fx_callback()
         a1, a2 = fx(xx), fx(xx)
-        assert a1 is not a2 and a1.base is None
-    assert worst < 1e-12, f"ode_ref closed forms disagree with SymPy: {worst:.3g}"
+        _require(a1 is not a2 and a1.base is None)
+    _require(worst < 1e-12, f"ode_ref closed forms disagree with SymPy: {worst:.3g}")
     # map_derivs on maps with known derivatives
     m1 = _FakeMap(lambda x: 1.7 * (1 + x) / (1 - x) + 0.3, (-1, 1))
     for xv in (-0.9, 0.0, 0.9):
         g1, g2 = map_derivs(m1, xv)
         e1, e2 = 2 * 1.7 / (1 - xv) ** 2, 4 * 1.7 / (1 - xv) ** 3
-        assert abs(g1 / e1 - 1) < 1e-10 and abs(g2 / e2 - 1) < 1e-7, (xv, g1 / e1 - 1, g2 / e2 - 1)
+        _require(abs(g1 / e1 - 1) < 1e-10 and abs(g2 / e2 - 1) < 1e-7, (xv, g1 / e1 - 1, g2 / e2 - 1))
     m2 = _FakeMap(lambda x: 0.2 * np.exp(0.8 * x), (0, np.inf))
     for xv in (0.1, 3.0, 6.0):
         g1, g2 = map_derivs(m2, xv)
         e1 = 0.16 * math.exp(0.8 * xv)
-        assert abs(g1 / e1 - 1) < 1e-10 and abs(g2 / (0.8 * e1) - 1) < 1e-7, (xv, g1 / e1 - 1)
+        _require(abs(g1 / e1 - 1) < 1e-10 and abs(g2 / (0.8 * e1) - 1) < 1e-7, (xv, g1 / e1 - 1))
     # tiny slope on top of an O(1) offset (needs the extended-precision sampling)
     m3 = _FakeMap(lambda x: 0.3 + 1e-7 * (x + 0.25 * x * x), (-1, 1))
     g1, g2 = map_derivs(m3, 0.4)
-    assert abs(g1 / 1.2e-7 - 1) < 1e-8 and abs(g2 / 0.5e-7 - 1) < 1e-5, (g1 / 1.2e-7 - 1, g2 / 0.5e-7 - 1)
+    _require(abs(g1 / 1.2e-7 - 1) < 1e-8 and abs(g2 / 0.5e-7 - 1) < 1e-5, (g1 / 1.2e-7 - 1, g2 / 0.5e-7 - 1))
     # propagators on y'' + 4 y = 0: Phi(x, 0) = [[cos 2x, sin 2x / 2], [-2 sin 2x, cos 2x]]
     c0 = {"shape": "const", "xc": 0.0, "om": 0.0, "ph": 0.0, "beta": 0.0}
     pr = Problem(2, random_solution(rng, 0.0), [dict(c0, alpha=4.0), dict(c0, alpha=0.0), dict(c0, alpha=1.0)])
     xt = np.array([0.0, 1.3, 0.4, 0.9])
     ph = propagators(pr, xt)
     ref = np.array([[[math.cos(2 * x), math.sin(2 * x) / 2], [-2 * math.sin(2 * x), math.cos(2 * x)]] for x in xt])
-    assert np.max(np.abs(ph - ref)) < 1e-7, np.max(np.abs(ph - ref))
+    _require(np.max(np.abs(ph - ref)) < 1e-7, np.max(np.abs(ph - ref)))
     return worst
